@@ -134,6 +134,11 @@ var c18FilterHeader = map[string]string{
 
 var c18Types = []string{"account", "account-key", "snap-declaration", "snap-revision", "model", "serial", "validation-set", "system-user"}
 
+// self-signed type without an authority that Database.Check knows how to verify
+// (serial-request and device-session-request are not checked through the
+// database): only the signature clauses apply
+var c18NoAuthorityTypes = []string{"account-key-request"}
+
 // types whose cross-checks demand a directly trusted authority
 var c18RootOnly = map[string]bool{"account": true, "account-key": true, "snap-declaration": true, "snap-revision": true}
 
@@ -409,6 +414,9 @@ func c18Boundaries(k *c18Key) []c18Instant {
 func (sc *c18Scenario) newItem(n int, rng *rand.Rand, prev []*c18Item) (*c18Item, error) {
 	it := &c18Item{Idx: n, Type: c18Types[rng.Intn(len(c18Types))], ConsOK: true}
 	all := append([]string{sc.Root}, sc.Accounts...)
+	if rng.Intn(12) == 0 {
+		return sc.newNoAuthorityItem(it, rng)
+	}
 	if c18RootOnly[it.Type] {
 		it.Authority = sc.Root
 		if rng.Intn(12) == 0 {
@@ -564,6 +572,37 @@ func (sc *c18Scenario) newItem(n int, rng *rand.Rand, prev []*c18Item) (*c18Item
 		if err != nil {
 			return nil, fmt.Errorf("grafted assertion does not decode: %v", err)
 		}
+	}
+	it.a = a
+	it.enc = asserts.Encode(a)
+	return it, nil
+}
+
+// newNoAuthorityItem: account-key-request, signed by the key
+// it carries or (BadSig) by another one.
+func (sc *c18Scenario) newNoAuthorityItem(it *c18Item, rng *rand.Rand) (*c18Item, error) {
+	it.Type = c18NoAuthorityTypes[rng.Intn(len(c18NoAuthorityTypes))]
+	it.TSClass = "none"
+	it.Rel = "self-signed"
+	pi := rng.Intn(len(sc.spare))
+	sp := c18Pool[sc.spare[pi]]
+	signer := sp
+	if rng.Intn(3) == 0 {
+		it.Rel = "self-signed-with-other-private-key"
+		it.BadSig = true
+		signer = c18Pool[sc.spare[(pi+1)%len(sc.spare)]]
+	}
+	all := append([]string{sc.Root}, sc.Accounts...)
+	h := map[string]interface{}{"account-id": all[rng.Intn(len(all))], "name": "requested", "public-key-sha3-384": sp.id,
+		"since": c18Fmt(sc.T0, rng)}
+	if rng.Intn(2) == 0 {
+		h["until"] = c18Fmt(sc.T0.Add(100*c18Day), rng)
+	}
+	body := sp.enc
+	it.Headers = h
+	a, err := asserts.SignWithoutAuthority(asserts.Type(it.Type), h, body, signer.priv)
+	if err != nil {
+		return nil, err
 	}
 	it.a = a
 	it.enc = asserts.Encode(a)
